@@ -48,8 +48,17 @@ def make_world(seed_rng_key, run):
     rng = run.rng(*seed_rng_key)
     cols, _info = C03.gen_table(rng, 90)
     # by_gene / genemetrics want gene runs; keep the generated names
-    w = {"cnr": make_cna(cols, meta={"sample_id": "S"})}
+    # non-default row labels (as on a filtered array) make an in-place sort()/reset_index() of the caller's table visible
+    odd_index = rng.random() < 0.5
+    n = len(cols["start"])
+    w = {"cnr": make_cna(cols, meta={"sample_id": "S"}, index=(np.arange(n) * 3 + 7) if odd_index else None)}
     tgt, anti, ref, _ = C04.gen_case(rng)
+    if rng.random() < 0.6:
+        # fix documents no row-order precondition: rows in arbitrary order, arbitrary labels
+        tgt = tgt.iloc[rng.permutation(len(tgt))]
+        ref = ref.iloc[rng.permutation(len(ref))]
+        if len(anti) > 1:
+            anti = anti.iloc[rng.permutation(len(anti))]
     w["tgt"], w["anti"], w["ref"] = C04._cna(tgt), C04._cna(anti), C04._cna(ref, "ref")
     rows = []
     for c in ("chr1", "chr2"):
@@ -62,6 +71,8 @@ def make_world(seed_rng_key, run):
             pos += ln if rng.random() < 0.8 else 0
     rows.sort(key=lambda r: (r[0], r[1], r[2]))
     w["regions"] = make_ga(rows, extras=("gene",))
+    if odd_index:
+        w["regions"].data.index = np.arange(len(rows)) * 2 + 11
     other = [(c, s + int(rng.integers(-300, 300)) if s > 300 else s, e + int(rng.integers(0, 400)), g) for c, s, e, g in rows[::2]]
     other = sorted((c, max(0, s), max(e, max(0, s) + 1), g) for c, s, e, g in other)
     w["other"] = make_ga(other, extras=("gene",))
